@@ -761,11 +761,11 @@ theorem owns_split (E Lt : List (Key × σ)) (p : Key) (st : σ)
     simp only [List.getElem?_cons_succ] at hq
     exact List.mem_map.mpr ⟨(q, st'), List.mem_of_getElem? hq, rfl⟩
 
-/-- **`keys()` of the composite** (membership): the mount points, the keys of every mounted store re-prefixed
+/-- **what `keys()` lists from the stores** (membership): the mount points, the keys of every mounted store re-prefixed
 where that store is the innermost mount on the path, and the default store's keys with no mount on the path -/
-theorem mount_keys_mem (hK : ∀ st, P.keys st = .ok (K st)) (s : MtState σ)
+theorem mount_listed_mem (hK : ∀ st, P.keys st = .ok (K st)) (s : MtState σ)
     (hwf : tableWF (s.2.map (·.1)) = true) :
-    ∃ ks, (M P).keys s = .ok ks ∧ ∀ x, x ∈ ks ↔
+    ∃ ks, Mt.keysListed P s = .ok ks ∧ ∀ x, x ∈ ks ↔
       ((∃ p st, (p, st) ∈ s.2 ∧ x = p) ∨
        (∃ i p st kk, s.2[i]? = some (p, st) ∧ kk ∈ K st ∧ kk ≠ [] ∧ x = p ++ kk ∧ Owns s.2 i x) ∨
        (∃ d, s.1 = some d ∧ x ∈ K d ∧ NoMount s.2 x)) := by
@@ -834,8 +834,7 @@ theorem mount_keys_mem (hK : ∀ st, P.keys st = .ok (K st)) (s : MtState σ)
   cases hd : s.1 with
   | none =>
     refine ⟨outK K s.2.reverse [], ?_, ?_⟩
-    · show Mt.keys P s = _
-      unfold Mt.keys
+    · unfold Mt.keysListed
       rw [keysMounts_eq P K hK]
       simp only [hd]
     · intro x
@@ -843,8 +842,7 @@ theorem mount_keys_mem (hK : ∀ st, P.keys st = .ok (K st)) (s : MtState σ)
       simp
   | some d =>
     refine ⟨outK K s.2.reverse [] ++ (K d).filter (fun k => !(s.2.any (fun e => e.1.isPrefixOf k))), ?_, ?_⟩
-    · show Mt.keys P s = _
-      unfold Mt.keys
+    · unfold Mt.keysListed
       rw [keysMounts_eq P K hK]
       simp only [hd, hK]
     · intro x
@@ -900,15 +898,14 @@ theorem nodup_outK (l : List (Key × σ)) (hKn : ∀ e, e ∈ l → (K e.2).Nodu
         exact hhead (p', st') this (h ▸ hpx)
       · exact h4 p (Or.inl (by simp)) hpx
 
-/-- **`keys()` lists every key once** -/
-theorem mount_keys_nodup (hK : ∀ st, P.keys st = .ok (K st)) (s : MtState σ)
+/-- the stores' part of `keys()` lists every key once -/
+theorem mount_listed_nodup (hK : ∀ st, P.keys st = .ok (K st)) (s : MtState σ)
     (hKn : ∀ e, e ∈ s.2 → (K e.2).Nodup) (hKd : ∀ d, s.1 = some d → (K d).Nodup)
-    (hwf : tableWF (s.2.map (·.1)) = true) (ks : List Key) (h : (M P).keys s = .ok ks) : ks.Nodup := by
+    (hwf : tableWF (s.2.map (·.1)) = true) (ks : List Key) (h : Mt.keysListed P s = .ok ks) : ks.Nodup := by
   have hpw : s.2.reverse.Pairwise (fun e1 e2 => ¬ e1.1 <+: e2.1) :=
     List.pairwise_reverse.mpr (tableWF_pairwise s.2 hwf)
   have hno := nodup_outK K s.2.reverse (fun e he => hKn e (List.mem_reverse.mp he)) [] hpw
-  change Mt.keys P s = _ at h
-  unfold Mt.keys at h
+  unfold Mt.keysListed at h
   rw [keysMounts_eq P K hK] at h
   cases hd : s.1 with
   | none =>
@@ -933,6 +930,80 @@ theorem mount_keys_nodup (hK : ∀ st, P.keys st = .ok (K st)) (s : MtState σ)
     simp only [Bool.not_eq_true] at this
     rw [List.isPrefixOf_iff_prefix.mpr hpx] at this
     cases this
+
+/-! ### `keys()` = the listed keys, then the parents of mount points that no store listed (fix D7f) -/
+
+theorem mountParents_eq (tbl : List (Key × σ)) :
+    Mt.mountParents tbl = (tbl.flatMap (fun e => ancestors e.1)).eraseDups := by
+  unfold Mt.mountParents ancestors
+  congr 2
+  funext e
+  congr 1
+  funext i
+  by_cases h : i = 0 <;> simp [h]
+
+/-- the appended candidates: the proper non-root prefixes of the mount prefixes -/
+theorem mem_mountParents (tbl : List (Key × σ)) (a : Key) :
+    a ∈ Mt.mountParents tbl ↔ a ≠ [] ∧ ∃ p st, (p, st) ∈ tbl ∧ a <+: p ∧ a ≠ p := by
+  rw [mountParents_eq, List.mem_eraseDups, List.mem_flatMap]
+  constructor
+  · rintro ⟨⟨p, st⟩, hm, ha⟩
+    obtain ⟨h1, h2, h3⟩ := (mem_ancestors a p).mp ha
+    exact ⟨h1, p, st, hm, h2, h3⟩
+  · rintro ⟨h1, p, st, hm, h2, h3⟩
+    exact ⟨(p, st), hm, (mem_ancestors a p).mpr ⟨h1, h2, h3⟩⟩
+
+theorem nodup_mountParents (tbl : List (Key × σ)) : (Mt.mountParents tbl).Nodup := by
+  unfold Mt.mountParents
+  exact nodup_eraseDups' _
+
+theorem mount_keys_eq (s : MtState σ) (l : List Key) (h : Mt.keysListed P s = .ok l) :
+    (M P).keys s = .ok (l ++ (Mt.mountParents s.2).filter (fun a => !(l.contains a))) := by
+  show Mt.keys P s = _
+  unfold Mt.keys
+  rw [h]
+
+/-- **`keys()` of the composite** (membership): the mount points and their parents, the keys of every mounted store
+re-prefixed where that store is the innermost mount on the path, and the default store's keys with no mount on the path -/
+theorem mount_keys_mem (hK : ∀ st, P.keys st = .ok (K st)) (s : MtState σ)
+    (hwf : tableWF (s.2.map (·.1)) = true) :
+    ∃ ks, (M P).keys s = .ok ks ∧ ∀ x, x ∈ ks ↔
+      ((x ≠ [] ∧ ∃ p st, (p, st) ∈ s.2 ∧ x <+: p) ∨
+       (∃ i p st kk, s.2[i]? = some (p, st) ∧ kk ∈ K st ∧ kk ≠ [] ∧ x = p ++ kk ∧ Owns s.2 i x) ∨
+       (∃ d, s.1 = some d ∧ x ∈ K d ∧ NoMount s.2 x)) := by
+  obtain ⟨l, h1, h2⟩ := mount_listed_mem P K hK s hwf
+  refine ⟨_, mount_keys_eq P s l h1, ?_⟩
+  intro x
+  rw [List.mem_append, List.mem_filter, mem_mountParents]
+  constructor
+  · rintro (hx | ⟨⟨hne, p, st, hm, hp, _⟩, _⟩)
+    · rcases (h2 x).mp hx with ⟨p, st, hm, rfl⟩ | h | h
+      · exact Or.inl ⟨wf_nonempty hwf (List.mem_map.mpr ⟨(x, st), hm, rfl⟩), x, st, hm, List.prefix_refl _⟩
+      · exact Or.inr (Or.inl h)
+      · exact Or.inr (Or.inr h)
+    · exact Or.inl ⟨hne, p, st, hm, hp⟩
+  · rintro (⟨hne, p, st, hm, hp⟩ | h | h)
+    · by_cases hx : x ∈ l
+      · exact Or.inl hx
+      · by_cases he : x = p
+        · exact Or.inl ((h2 x).mpr (Or.inl ⟨p, st, hm, he⟩))
+        · exact Or.inr ⟨⟨hne, p, st, hm, hp, he⟩, by simp [hx]⟩
+    · exact Or.inl ((h2 x).mpr (Or.inr (Or.inl h)))
+    · exact Or.inl ((h2 x).mpr (Or.inr (Or.inr h)))
+
+/-- **`keys()` lists every key once** -/
+theorem mount_keys_nodup (hK : ∀ st, P.keys st = .ok (K st)) (s : MtState σ)
+    (hKn : ∀ e, e ∈ s.2 → (K e.2).Nodup) (hKd : ∀ d, s.1 = some d → (K d).Nodup)
+    (hwf : tableWF (s.2.map (·.1)) = true) (ks : List Key) (h : (M P).keys s = .ok ks) : ks.Nodup := by
+  obtain ⟨l, h1, _⟩ := mount_listed_mem P K hK s hwf
+  rw [mount_keys_eq P s l h1] at h
+  cases h
+  refine List.nodup_append.mpr ⟨mount_listed_nodup P K hK s hKn hKd hwf l h1,
+    List.Pairwise.filter _ (nodup_mountParents s.2), ?_⟩
+  intro x hx y hy e
+  subst e
+  simp only [List.mem_filter, Bool.not_eq_true', List.contains_eq_mem, decide_eq_false_iff_not] at hy
+  exact hy.2 hx
 
 end keys
 
